@@ -12,6 +12,8 @@ Theorems: coq/Properties/C13.v.  Ties (correspondence by execution):
   size     : geometry_size / extract_subcells
   occ      : find_occurrences
   inline   : inline_cells with the implementation's own to_inline set captured
+  score    : inline_cells(dic, max_inline_score) as a whole (score = float
+             division, selection by <) vs Model.inline_cells_score at binary64
   fill     : the FILL loop (pot_fill) under the four inline flag combinations
 Sweep with an independent oracle: generated decks (universes, fills with
 transformations, lattices, unions, duplicate surfaces in several spellings)
@@ -33,8 +35,8 @@ THEOREMS = ['C13_dedup_merges_equal', 'C13_dedup_merges_tested',
             'C13_desc_eqb_sound', 'C13_dedup_survivor_smallest',
             'C13_dedup_survivor_minimal', 'C13_dedup_covers',
             'C13_dedup_idempotent', 'C13_renumber_den', 'C13_dedup_den',
-            'C13_dedup_helper_merge_refuted', 'C13_dedup_all_empty_refuted',
-            'C13_inline_den', 'C13_inline_complete',
+            'C13_dedup_helpers_survive', 'C13_dedup_all_empty_refuted',
+            'C13_inline_den', 'C13_inline_score_den', 'C13_inline_complete',
             'C13_inline_model', 'C13_inline_total',
             'C13_acyclic_unique_model', 'C13_fill_geometry_den',
             'C13_options_same_geometry']
@@ -46,8 +48,8 @@ TRUSTED = [
     'binary64 == on finite numbers is PrimFloat.eqb; that eqb true implies '
     'equality of the represented reals is Flocq\'s Beqb correctness (cited, '
     'not imported); theorems are stated at R',
-    'the float score of compute_inlining_scores is not modelled: the model '
-    'takes the to_inline set from the implementation',
+    'theorems about inlining hold for every to_inline set; the float score '
+    '(size / mentions < max) is modelled over Scalar T and tied at binary64',
     'TRIPOLI-4 reading of SURF/VOLU lines (DESIGN Appendix B) in t4eval and in '
     'the sense-assignment evaluator of harness/c13_sweep.py',
     'harness: generators, impl.T4File reader, PEG shim replacing TatSu',
@@ -128,34 +130,35 @@ def witness_tables(deck_text=None):
 
 
 def run_witnesses(res):
-    '''Known finding helper_plane_dedup_merge: KeyError with the default
-    options, success with --skip-deduplication.'''
+    '''Former finding helper_plane_dedup_merge (fixed in /repo by "renumber the
+    union helper planes together with the other surfaces"): the witness deck must
+    convert under both settings, and the tables of C13_example_helper_merge must
+    be the ones the implementation builds.'''
     cap = witness_tables()
     same = (cap.get('surfs') == WITNESS_SURFS and cap.get('vols') == WITNESS_VOLS
             and cap.get('union_ids') == (5, 6))
-    bad = impl.convert(WITNESS_HELPER, [])
-    good = impl.convert(WITNESS_HELPER, ['--skip-deduplication'])
     res.seen(('witness', 'helper'), nontrivial=True)
-    if good.ok and not bad.ok and bad.exc == 'KeyError' and \
-            sweep.helper_merge_diagnosis(WITNESS_HELPER, []):
+    res.obligation('tie:witness (the tables of C13_example_helper_merge are the '
+                   'ones the implementation builds for the witness deck)', same,
+                   f'captured {cap}')
+    if not same:
+        res.violation('correspondence',
+                      'the tables in C13_example_helper_merge are not what '
+                      'construct_volume_t4 returns for the witness deck',
+                      {'observed': cap,
+                       'theorem_or_correspondence': 'tie:witness'},
+                      found_input=False)
+    out = sweep.run_deck(WITNESS_HELPER, [], [[], ['--skip-deduplication']],
+                         5, 200, 100)
+    bad = [(v, st) for v, st in out['status'] if st != 'ok']
+    if bad or out['diffs']:
         res.violation(
             'impl-violation',
-            'union helper plane merged with a user PX 1 by de-duplication: '
-            f'KeyError {bad.msg} with default options, success with '
-            '--skip-deduplication',
-            {'input': {'deck': WITNESS_HELPER, 'vectors': [[], ['--skip-deduplication']]},
-             'observed': [repr(bad), repr(good)]},
-            cls='helper_plane_dedup_merge', found_input=True)
-        res.obligation('tie:witness (the tables of C13_dedup_helper_merge_'
-                       'refuted are the ones the implementation builds for the '
-                       'witness deck)', same, f'captured {cap}')
-        if not same:
-            res.violation('correspondence',
-                          'the tables in C13_dedup_helper_merge_refuted are '
-                          'not what construct_volume_t4 returns for the '
-                          'witness deck', {'observed': cap,
-                                           'theorem_or_correspondence':
-                                           'tie:witness'}, found_input=False)
+            'deck with a user PX 1 and a union that is patently empty after '
+            f'de-duplication: {bad or out["diffs"][0]["sigs"]}',
+            {'input': {'deck': WITNESS_HELPER,
+                       'vectors': [[], ['--skip-deduplication']]},
+             'observed': out['status']}, found_input=True)
 
 
 def patently_empty_everywhere(t4):
@@ -347,7 +350,7 @@ def tie_finish(res, rng, n):
     cases, meta = [], []
     plumbing_bad = None
     for i in range(n):
-        items, u0, u1 = tie.gen_surface_dict(rng)
+        items, u0, u1 = tie.gen_surface_dict(rng, helpers=rng.random() < 0.9)
         skeys = [k for k, _ in items]
         vols = tie.gen_volumes(rng, skeys, u0, u1)
         skip = rng.random() < 0.3
@@ -396,8 +399,8 @@ def tie_finish(res, rng, n):
 
 
 def tie_inlining(res, rng, n):
-    size_cases, occ_cases, inl_cases = [], [], []
-    occ_meta, inl_meta = [], []
+    size_cases, occ_cases, inl_cases, score_cases = [], [], [], []
+    occ_meta, inl_meta, score_meta = [], [], []
     for i in range(n):
         cyclic = rng.random() < 0.08
         missing = rng.random() < 0.08
@@ -413,9 +416,15 @@ def tie_inlining(res, rng, n):
                 cpair(cz(k), clist(cz(x) for x in v)) for k, v in o[1]))))
         occ_meta.append((cells, occ))
         res.count('occ:' + occ[0])
+        score = rng.choice([0.0, 0.5, 1.0, 1.0, 1.5, 2.0, 2.5, 3.0, 10.0,
+                            float('inf'), -1.0, 1 / 3, 4 / 3])
+        plain = tie.impl_inline_plain(cells, score, rng)
+        score_cases.append(cpair(tie.coq_cells(cells), common.cfloat(score),
+                                 tie.coq_res(plain,
+                                             lambda o: tie.coq_cells(o[1]))))
+        score_meta.append((cells, score, plain))
         if occ[0] != 'ok':
             continue
-        score = rng.choice([0.0, 0.5, 1.0, 1.0, 2.0, 10.0, float('inf')])
         ti, out = tie.impl_inline(cells, score, rng)
         n_refs = sum(len(refs_of(c['geom'])) for _, c in cells)
         res.seen(('inline', cells, ti), nontrivial=bool(ti) and n_refs > 0)
@@ -434,7 +443,9 @@ def tie_inlining(res, rng, n):
             ('c13_occ', 'list (Z * mcell) * res (list (Z * list Z))',
              'check_occ', occ_cases),
             ('c13_inline', 'list (Z * mcell) * list Z * res (list (Z * mcell))',
-             'check_inline', inl_cases)):
+             'check_inline', inl_cases),
+            ('c13_score', 'list (Z * mcell) * float * res (list (Z * mcell))',
+             'check_inline_score', score_cases)):
         bad, errs = common.run_case_files(name, HEADER, typ, fun, cases)
         res.obligation(f'tie:{name[4:]} ({len(cases)} cases: implementation = '
                        'model)', not bad and not errs,
@@ -445,6 +456,10 @@ def tie_inlining(res, rng, n):
                 cells, score, ti, out = inl_meta[idx]
                 payload.update(input={'cells': cells, 'score': score},
                                observed=[ti, out])
+            elif name == 'c13_score':
+                cells, score, out = score_meta[idx]
+                payload.update(input={'cells': cells, 'score': score},
+                               observed=out)
             elif name == 'c13_occ':
                 payload.update(input={'cells': occ_meta[idx][0]},
                                observed=occ_meta[idx][1])
@@ -549,12 +564,6 @@ def classify_failures(text, lat, status):
     '''status: [(vector, 'ok' | 'exc:..' | 'bad:..')] with at least one ok and
     one failure.  Returns the known-finding class or None.'''
     failing = [(v, s) for v, s in status if s != 'ok']
-    if all(s.startswith('exc:KeyError') for _, s in failing) and \
-            all('--skip-deduplication' not in v for v, _ in failing) and \
-            all(s == 'ok' for v, s in status if '--skip-deduplication' in v):
-        vec = failing[0][0]
-        if sweep.helper_merge_diagnosis(text, list(vec) + list(lat)):
-            return 'helper_plane_dedup_merge'
     if all(s.startswith('exc:ValueError:max()') for _, s in failing) and \
             all('--skip-deduplication' not in v for v, _ in failing) and \
             all(s == 'ok' for v, s in status if '--skip-deduplication' in v):
